@@ -7,7 +7,7 @@
    parked where it should not be; that worker functions return is the property's own
    hypothesis. *)
 From Coq Require Import List Arith.
-From VQ Require Import SliceWake SliceWakeProofs.
+From VQ Require Import SliceWake SliceWakeProofs SliceBatch SliceBatchProofs.
 Import ListNotations.
 
 (* No lost wake-up: whenever the event loop is parked while its guard is true, a signal is
@@ -32,6 +32,13 @@ Theorem C03_signal_persists :
     ksig s' = true \/ e = KRecv \/ e = KClose \/ e = KOpen.
 Proof. exact signal_persists. Qed.
 Print Assumptions C03_signal_persists.
+
+(* A pool goroutine is never stuck sending an item's outcome: the stream of a batch has one slot
+   per item (coq/SliceBatch.v), so the send of an item that has not sent yet finds a free slot
+   whether or not anybody reads the stream. *)
+Theorem C03_batch_send_never_blocks : forall s, BReachable s -> bsends s < bn s -> chlen s < bcap s.
+Proof. exact send_never_blocks. Qed.
+Print Assumptions C03_batch_send_never_blocks.
 
 (* non-vacuity: a completion makes room while the loop is parked; its notify wakes the loop *)
 Example C03_example :
